@@ -34,6 +34,19 @@ CLAIMED['C09'] = (
     'Bounded (3 RDMs x 3-4 conditions). Uniformity (clause f) is probabilistic and not expressible in TLA+: TLC establishes '
     'the support, a 6-sigma frequency test the rest. Trusts harness/rdmstore.py projection.', '4/C09')
 
+CLAIMED['C05'] = (
+    'TLA+ module CvSets.tla over RdmsStore.tla: every (source, generator, descriptors, k, shuffle outcome) case with the '
+    'clauses as TLC invariants; replay with forced numpy.random.shuffle; perturbation replay through crossval with '
+    'recording / frozen fitters for the no-leak clauses',
+    'TLC enumerates every case of the eight fold generators over small objects (incl. bootstrap copies and duplicate '
+    'descriptor groups, every shuffle outcome for <= 3-4 groups) and checks Disjoint, WholeGroups, Exhaustive, Advertised '
+    'and NoLeak on the folds the specification builds with the container operations; every case is replayed into the '
+    'real generator with the shuffles forced and every handed-out object and index list is compared; for the leakage '
+    'clauses the same fold structures drive crossval: entries outside a fold\'s training object must leave its fitted '
+    'parameters bit-identical, entries outside its test object must leave its score bit-identical at fixed parameters.',
+    'Bounded (3-4 RDMs x 3-6 conditions); leakage judged by bit-identity under perturbation with fit_regress, fit_select, '
+    'fit_interpolate, fit_mock; trusts harness/rdmstore.py projection.', '4/C05')
+
 NOT_YET = {
 }
 
